@@ -137,11 +137,15 @@ pub fn generator_next(
 
                 // Forward next() to the delegated iterator
                 let sent_value = args.first().cloned().unwrap_or(JsValue::Undefined);
-                let result = interp.call_function(
+                let result = match interp.call_function(
                     next_method.clone(),
                     JsValue::Object(iter_obj.cheap_clone()),
                     &[sent_value],
-                )?;
+                ) {
+                    Ok(result) => result,
+                    // An exception from the inner iterator is thrown at the yield* expression
+                    Err(error) => return throw_at_yield_star(interp, &gen_state, error, is_async),
+                };
                 // Keep guard alive until after call_function returns
                 let _ = iter_guard;
 
@@ -338,6 +342,46 @@ pub fn generator_throw(
                 }
             }
 
+            // While delegating (yield*), the exception goes to the inner iterator's throw();
+            // what that returns or throws is the outcome of the yield* step
+            let delegate = gen_state.borrow().delegated_iterator.clone();
+            if let Some((iter_obj, _)) = delegate.filter(|_| !is_async) {
+                let iter_guard = interp.heap.create_guard();
+                iter_guard.guard(iter_obj.cheap_clone());
+                let throw_key = PropertyKey::String(interp.intern("throw"));
+                let throw_fn = iter_obj.borrow().get_property(&throw_key);
+                if let Some(throw_fn @ JsValue::Object(_)) = throw_fn {
+                    return match interp.call_function(
+                        throw_fn,
+                        JsValue::Object(iter_obj.cheap_clone()),
+                        core::slice::from_ref(&exception),
+                    ) {
+                        Ok(result) => {
+                            let (value, done) = interp.extract_iterator_result(&result.value);
+                            if done {
+                                gen_state.borrow_mut().delegated_iterator = None;
+                                gen_state.borrow_mut().sent_value = value;
+                                interp.resume_bytecode_generator(&gen_state)
+                            } else {
+                                Ok(create_generator_result(interp, value, false))
+                            }
+                        }
+                        Err(error) => throw_at_yield_star(interp, &gen_state, error, false),
+                    };
+                }
+                // No throw method: the iterator is closed and the protocol violation reported
+                let return_key = PropertyKey::String(interp.intern("return"));
+                let return_fn = iter_obj.borrow().get_property(&return_key);
+                if let Some(return_fn @ JsValue::Object(_)) = return_fn
+                    && let Err(error) =
+                        interp.call_function(return_fn, JsValue::Object(iter_obj.cheap_clone()), &[])
+                {
+                    return throw_at_yield_star(interp, &gen_state, error, false);
+                }
+                let error = JsError::type_error("The iterator does not provide a 'throw' method");
+                return throw_at_yield_star(interp, &gen_state, error, false);
+            }
+
             // Set the throw value and resume the generator
             // The generator will throw this exception at the current yield point
             gen_state.borrow_mut().throw_value = Some(exception);
@@ -353,6 +397,35 @@ pub fn generator_throw(
         _ => Err(JsError::type_error(
             "Generator.prototype.throw called on non-generator",
         )),
+    }
+}
+
+/// End a yield* delegation with an exception: it is thrown inside the generator at the yield*
+/// expression, where the generator's own handlers may catch it
+fn throw_at_yield_star(
+    interp: &mut Interpreter,
+    gen_state: &Rc<RefCell<BytecodeGeneratorState>>,
+    error: JsError,
+    is_async: bool,
+) -> Result<Guarded, JsError> {
+    let thrown = match error {
+        JsError::ThrownValue { guarded } => guarded,
+        other => {
+            let (value, guard) = super::error::create_error_object(interp, &other);
+            Guarded { value, guard }
+        }
+    };
+    {
+        let mut state = gen_state.borrow_mut();
+        state.delegated_iterator = None;
+        state.throw_value = Some(thrown.value.clone());
+    }
+    let result = interp.resume_bytecode_generator(gen_state)?;
+    drop(thrown);
+    if is_async {
+        wrap_in_fulfilled_promise(interp, result)
+    } else {
+        Ok(result)
     }
 }
 
